@@ -42,6 +42,9 @@ def plan(tier, seed):
         shards = plan_graph_shards("A", n_max=5, chunk=32)
         shards += plan_graph_shards("B", n_max=6, n_min=6, k=2, parts=8)
         shards += plan_graph_shards("B", k=2, parts=8, with_ext=True, tree_list=list(BIG_TREES))
+    # package importers (a module file next to a package of the same stem): a module that has sub modules imports
+    # an unrelated module or one of its own deeper descendants, which the limit may merge into its direct child
+    shards += plan_graph_shards("N", n_max=5 if tier == "quick" else 6, n_min=3, k=1 if tier == "quick" else 2, parts=2)
     adv = plan_graph_shards("A", n_max=4 if tier == "quick" else 5, chunk=64)
     shards += [dict(s, naming="adversarial", bound=s["bound"] + " naming=adversarial") for s in adv]
     shards += [dict(s, naming="unicode", bound=s["bound"] + " naming=unicode (non-ASCII identifiers)") for s in adv]
@@ -121,6 +124,14 @@ def check_graph(ns, I, seed, res, with_rules=True, only=None):
             viol.append(("limited-graph-is-not-the-quotient", k, None, _snap(exp), _snap(got)))
             continue
         if not with_rules or k == d or k == 0:
+            continue
+        if any(truncate(v, k).rsplit(".", 1)[0] == truncate(u, k) and truncate(v, k) != truncate(u, k) for u, v in I):
+            # a package imports one of its own deeper descendants and the limit merges the importee into the package's
+            # direct child: import and hierarchy edge coincide.  The hierarchy must survive (checked above); the import
+            # cannot be represented next to it - the corner recorded in DESIGN §8 (a parent importing its direct child),
+            # outside the realizable domain (tree assumption A3) - so verdicts are not compared for this k
+            if res is not None:
+                res.stats["not-judged:import-coincides-with-hierarchy-edge"] += 1
             continue
         # layer rules whose layers list modules at or above the limit: same verdict on both
         if only is None or (isinstance(only, dict) and "layers" in only):
